@@ -131,6 +131,8 @@ def array_attr(ex, a, attr, line):
         return tuple(a.shape)
     if attr == 'data':
         return a
+    if attr == 'size' and a.kind == 'vector':
+        return BuiltinMethod(a, 'size')
     if attr == 'size':
         r = to_term(a.shape[0])
         for s in a.shape[1:]:
